@@ -981,7 +981,8 @@ fn b_gen(r: &mut Rng, out: &mut Out) -> (Vec<BCall>, Vec<Vec<BCall>>, Vec<(Strin
     let classes = cls_table(&pool);
     let mk = |r: &mut Rng, op: OpK| {
         let (cls, key) = r.pick(&pool).clone();
-        let kind = if r.chance(5, 6) { 0 } else { 1 };
+        // all three kinds: the three get_or_create_* are separate copies of the race-sensitive code
+        let kind = [0u8, 1, 2][r.weighted(&[4, 1, 2])];
         let _ = key.get_hash();
         BCall { op, kind, cls, key }
     };
@@ -1021,6 +1022,761 @@ fn fixed_keys() -> (Vec<(usize, Key)>, Vec<(String, usize)>) {
     (pool, classes)
 }
 
+
+// ---------------------------------------------------------------------------------------------
+// stream C: sweeps (clear / retain_* / visit_*) against threads that hold a shard lock
+//
+// A thread parked INSIDE a callback of the registry (the `op` closure of get_or_create_*, the visitor of
+// visit_*, the predicate of retain_*) holds that shard's RwLock.  A sweep that reaches the shard must WAIT.
+// `clear` has no yield points, so a waiting sweep is a thread that is really blocked in `RwLock::write`; the
+// controller below knows which locks are held (it put the holders there), grants such a sweep "detached",
+// lets only lock holders move while it is in flight (everything they still do lies at or behind the shard the
+// sweep waits for, so the order of the lock sections is fixed whatever the OS does), and joins it as soon as
+// nothing it needs is held any more.  The executed history is replayed on the Lean machine `lrun`
+// (Model/Registry.lean: `lstep`, `sweepRun`), where a token for a waiting sweep is a stutter.
+//
+// Timing only matters for how likely a DEFECT shows (a sweep that skips instead of waiting has `GRACE` to get
+// to the held shard before the holder lets go); on correct code no outcome depends on it.
+
+mod lsched {
+    use std::cell::RefCell;
+    use std::sync::{Arc, Condvar, Mutex};
+    use std::time::{Duration, Instant};
+
+    #[derive(Clone, Copy, PartialEq, Debug)]
+    pub enum Stat {
+        Running,
+        Parked(&'static str),
+        Finished,
+    }
+    struct St {
+        status: Vec<Stat>,
+        turn: Option<usize>,
+        free_run: bool,
+    }
+    pub struct Ctl {
+        st: Mutex<St>,
+        cv: Condvar,
+    }
+    thread_local! {
+        static ME: RefCell<Option<(Arc<Ctl>, usize)>> = RefCell::new(None);
+    }
+    fn hook(id: &'static str) {
+        let me = ME.with(|m| m.borrow().clone());
+        if let Some((s, t)) = me {
+            s.park(t, id);
+        }
+    }
+    impl Ctl {
+        fn park(&self, t: usize, id: &'static str) {
+            let mut st = self.st.lock().unwrap();
+            if st.free_run {
+                return;
+            }
+            st.status[t] = Stat::Parked(id);
+            self.cv.notify_all();
+            while st.turn != Some(t) && !st.free_run {
+                st = self.cv.wait(st).unwrap();
+            }
+            if st.turn == Some(t) {
+                st.turn = None;
+            }
+            st.status[t] = Stat::Running;
+        }
+        pub fn spawn(bodies: Vec<Box<dyn FnOnce() + Send + 'static>>) -> (Arc<Ctl>, Vec<std::thread::JoinHandle<bool>>) {
+            let n = bodies.len();
+            let s = Arc::new(Ctl { st: Mutex::new(St { status: vec![Stat::Running; n], turn: None, free_run: false }), cv: Condvar::new() });
+            metrics::verif::set_hook(Some(hook));
+            let mut hs = vec![];
+            for (t, body) in bodies.into_iter().enumerate() {
+                let s2 = s.clone();
+                hs.push(std::thread::spawn(move || {
+                    ME.with(|m| *m.borrow_mut() = Some((s2.clone(), t)));
+                    s2.park(t, "start");
+                    let r = std::panic::catch_unwind(std::panic::AssertUnwindSafe(body));
+                    ME.with(|m| *m.borrow_mut() = None);
+                    let mut st = s2.st.lock().unwrap();
+                    st.status[t] = Stat::Finished;
+                    s2.cv.notify_all();
+                    r.is_ok()
+                }));
+            }
+            (s, hs)
+        }
+        /// waits until no thread except `ignore` is running; false on timeout
+        pub fn wait_quiet(&self, ignore: Option<usize>, max: Duration) -> bool {
+            let deadline = Instant::now() + max;
+            let mut st = self.st.lock().unwrap();
+            loop {
+                let busy = st.turn.is_some() || st.status.iter().enumerate().any(|(i, x)| Some(i) != ignore && *x == Stat::Running);
+                if !busy {
+                    return true;
+                }
+                let now = Instant::now();
+                if now >= deadline {
+                    return false;
+                }
+                let (g, _) = self.cv.wait_timeout(st, (deadline - now).min(Duration::from_millis(50))).unwrap();
+                st = g;
+            }
+        }
+        pub fn status(&self) -> Vec<Stat> {
+            self.st.lock().unwrap().status.clone()
+        }
+        pub fn grant(&self, t: usize) {
+            let mut st = self.st.lock().unwrap();
+            st.turn = Some(t);
+            st.status[t] = Stat::Running;
+            self.cv.notify_all();
+        }
+        /// waits until the grant has been taken (the thread left its park)
+        pub fn wait_taken(&self, max: Duration) -> bool {
+            let deadline = Instant::now() + max;
+            let mut st = self.st.lock().unwrap();
+            while st.turn.is_some() {
+                let now = Instant::now();
+                if now >= deadline {
+                    return false;
+                }
+                let (g, _) = self.cv.wait_timeout(st, (deadline - now).min(Duration::from_millis(50))).unwrap();
+                st = g;
+            }
+            true
+        }
+        pub fn release_all(&self) {
+            let mut st = self.st.lock().unwrap();
+            st.free_run = true;
+            self.cv.notify_all();
+        }
+        pub fn done() {
+            metrics::verif::set_hook(None);
+        }
+    }
+}
+
+#[derive(Clone, Debug, PartialEq)]
+enum LOp {
+    Goc,
+    Get,
+    Del,
+    Clear,
+    Visit { hold: bool },
+    Retain { keep: Vec<usize>, hold: bool },
+}
+
+#[derive(Clone, Debug)]
+struct LCallR {
+    op: LOp,
+    kind: u8,
+    cls: usize,
+    key: Key,
+}
+
+impl LCallR {
+    #[allow(dead_code)]
+    fn is_sweep(&self) -> bool {
+        matches!(self.op, LOp::Clear | LOp::Visit { .. } | LOp::Retain { .. })
+    }
+}
+
+fn lcall_tok(c: &LCallR) -> String {
+    let kt = kind_tok(c.kind);
+    match &c.op {
+        LOp::Goc => format!("g/{}/{}:{}", kt, c.cls, c.key.get_hash()),
+        LOp::Get => format!("r/{}/{}:{}", kt, c.cls, c.key.get_hash()),
+        LOp::Del => format!("d/{}/{}:{}", kt, c.cls, c.key.get_hash()),
+        LOp::Clear => "c".to_string(),
+        LOp::Visit { hold } => format!("v/{}/{}", kt, *hold as u8),
+        LOp::Retain { keep, hold } => format!(
+            "t/{}/{}/{}",
+            kt,
+            if keep.is_empty() { "-".to_string() } else { keep.iter().map(|c| c.to_string()).collect::<Vec<_>>().join("_") },
+            *hold as u8
+        ),
+    }
+}
+
+fn lprog_tok(p: &[LCallR]) -> String {
+    if p.is_empty() {
+        "-".into()
+    } else {
+        p.iter().map(lcall_tok).collect::<Vec<_>>().join("+")
+    }
+}
+
+#[derive(Clone, Debug)]
+enum LResR {
+    Id(Got),
+    Opt(Option<Got>),
+    Bool(bool),
+    Unit,
+    Listing(Vec<(usize, Got)>),
+}
+
+fn lres_tok(r: &LResR) -> String {
+    match r {
+        LResR::Id(g) => g.id.to_string(),
+        LResR::Opt(None) => "~".into(),
+        LResR::Opt(Some(g)) => format!("s{}", g.id),
+        LResR::Bool(true) => "t".into(),
+        LResR::Bool(false) => "f".into(),
+        LResR::Unit => "u".into(),
+        LResR::Listing(l) => {
+            let mut v: Vec<(usize, usize)> = l.iter().map(|(c, g)| (*c, g.id)).collect();
+            v.sort();
+            format!("L{}", v.iter().map(|(c, i)| format!("{}:{}", c, i)).collect::<Vec<_>>().join("_"))
+        }
+    }
+}
+
+/// how long a sweep that is expected to wait for a held lock is given to get there (only a defective sweep,
+/// one that does not wait, can finish within it)
+const GRACE: std::time::Duration = std::time::Duration::from_millis(12);
+const STUCK: std::time::Duration = std::time::Duration::from_secs(20);
+
+#[derive(Clone, Copy, Debug, PartialEq)]
+struct Held {
+    kind: u8,
+    shard: usize,
+    write: bool,
+}
+
+struct SweepNote {
+    thread: usize,
+    call: usize,
+    /// storages made before the sweep was started
+    created_before: usize,
+    /// a holder was inside a shard the sweep needs when it was started
+    contended: bool,
+}
+
+#[allow(dead_code)]
+struct LOutcome {
+    pre_results: Vec<BRes>,
+    results: Vec<Vec<LResR>>,
+    listing: [Vec<(usize, Got)>; 3],
+    created: usize,
+    mask: usize,
+    trace: Vec<(usize, &'static str)>,
+    sweeps: Vec<SweepNote>,
+    problem: Option<String>,
+    _keep: Vec<H>,
+}
+
+fn l_do_call(reg: &BReg, c: &LCallR, keep: &Mutex<Vec<H>>, classes: &[(String, usize)], mask: usize, park_at: &AtomicUsize) -> LResR {
+    let cls_of = |k: &Key| {
+        let cn = canon_key(k);
+        classes.iter().find(|(x, _)| *x == cn).map(|(_, i)| *i).unwrap_or(usize::MAX)
+    };
+    let k = &c.key;
+    match &c.op {
+        LOp::Goc => {
+            // the `op` closure runs under the shard lock: park there
+            let op = |h: &H| {
+                metrics::verif::point("reg.goc.op");
+                h.clone()
+            };
+            let h = match c.kind {
+                0 => reg.get_or_create_counter(k, op),
+                1 => reg.get_or_create_gauge(k, op),
+                _ => reg.get_or_create_histogram(k, op),
+            };
+            let g = got_of(&h);
+            keep.lock().unwrap().push(h);
+            LResR::Id(g)
+        }
+        LOp::Get => {
+            let h = match c.kind {
+                0 => reg.get_counter(k),
+                1 => reg.get_gauge(k),
+                _ => reg.get_histogram(k),
+            };
+            let g = h.as_ref().map(got_of);
+            if let Some(h) = h {
+                keep.lock().unwrap().push(h);
+            }
+            LResR::Opt(g)
+        }
+        LOp::Del => LResR::Bool(match c.kind {
+            0 => reg.delete_counter(k),
+            1 => reg.delete_gauge(k),
+            _ => reg.delete_histogram(k),
+        }),
+        LOp::Clear => {
+            metrics::verif::point("reg.sweep");
+            reg.clear();
+            LResR::Unit
+        }
+        LOp::Visit { hold } => {
+            metrics::verif::point("reg.sweep");
+            let park_shard = park_at.load(Ordering::SeqCst); // set by the controller when it grants the call
+            let mut parked = false;
+            let mut v: Vec<(usize, Got)> = vec![];
+            let mut f = |k: &Key, h: &H| {
+                if *hold && !parked && (k.get_hash() as usize & mask) == park_shard {
+                    parked = true;
+                    metrics::verif::point("reg.visit.cb");
+                }
+                v.push((cls_of(k), got_of(h)));
+            };
+            match c.kind {
+                0 => reg.visit_counters(&mut f),
+                1 => reg.visit_gauges(&mut f),
+                _ => reg.visit_histograms(&mut f),
+            }
+            LResR::Listing(v)
+        }
+        LOp::Retain { keep: kp, hold } => {
+            metrics::verif::point("reg.sweep");
+            let park_shard = park_at.load(Ordering::SeqCst);
+            let mut parked = false;
+            let mut v: Vec<(usize, Got)> = vec![];
+            let mut f = |k: &Key, h: &H| {
+                if *hold && !parked && (k.get_hash() as usize & mask) == park_shard {
+                    parked = true;
+                    metrics::verif::point("reg.retain.cb");
+                }
+                let c = cls_of(k);
+                v.push((c, got_of(h)));
+                kp.contains(&c)
+            };
+            match c.kind {
+                0 => reg.retain_counters(&mut f),
+                1 => reg.retain_gauges(&mut f),
+                _ => reg.retain_histograms(&mut f),
+            }
+            LResR::Listing(v)
+        }
+    }
+}
+
+/// runs the programs on real threads; every choice of the controller comes from `r`
+fn l_execute(pre: &[BCall], progs: &[Vec<LCallR>], classes: &[(String, usize)], r: &mut Rng) -> LOutcome {
+    use lsched::{Ctl, Stat};
+    use std::sync::atomic::AtomicUsize as AU;
+    let ctr = Arc::new(AtomicUsize::new(0));
+    let reg: Arc<BReg> = Arc::new(Registry::new(CountingStorage::<Key> { next: ctr.clone(), classify: canon_key }));
+    let dbg = format!("{:?}", reg);
+    let mask = dbg
+        .rsplit("shard_mask: ")
+        .next()
+        .and_then(|s| s.split(|c: char| !c.is_ascii_digit()).next())
+        .and_then(|s| s.parse::<usize>().ok())
+        .expect("shard_mask");
+    let keep: Arc<Mutex<Vec<H>>> = Arc::new(Mutex::new(vec![]));
+    let pre_results: Vec<BRes> = pre.iter().map(|c| do_call(&reg, c, &keep)).collect();
+    let n = progs.len();
+    let results: Arc<Mutex<Vec<Vec<LResR>>>> = Arc::new(Mutex::new(vec![vec![]; n]));
+    let park_shard: Arc<Vec<AU>> = Arc::new((0..n).map(|_| AU::new(usize::MAX)).collect());
+    let classes_a: Arc<Vec<(String, usize)>> = Arc::new(classes.to_vec());
+    let mut bodies: Vec<Box<dyn FnOnce() + Send + 'static>> = vec![];
+    for (t, prog) in progs.iter().enumerate() {
+        let (prog, reg, keep, results, park_shard, classes_a) = (prog.clone(), reg.clone(), keep.clone(), results.clone(), park_shard.clone(), classes_a.clone());
+        bodies.push(Box::new(move || {
+            for c in prog {
+                let res = l_do_call(&reg, &c, &keep, &classes_a, mask, &park_shard[t]);
+                results.lock().unwrap()[t].push(res);
+            }
+        }));
+    }
+    let (ctl, handles) = Ctl::spawn(bodies);
+    let mut trace: Vec<(usize, &'static str)> = vec![];
+    let mut sweeps: Vec<SweepNote> = vec![];
+    let mut problem: Option<String> = None;
+    let mut last_granted: Vec<&'static str> = vec![""; n];
+    let mut inflight: Option<usize> = None;
+    let shard_of = |k: &Key| k.get_hash() as usize & mask;
+
+    'outer: loop {
+        if !ctl.wait_quiet(inflight, STUCK) {
+            problem = Some("a thread neither reached a yield point nor finished within 20 s (blocked for good?)".into());
+            break;
+        }
+        let status = ctl.status();
+        let done: Vec<usize> = results.lock().unwrap().iter().map(|v| v.len()).collect();
+        if status.iter().all(|s| *s == Stat::Finished) {
+            break;
+        }
+        // who holds what
+        let mut held: Vec<Option<Held>> = vec![None; n];
+        for t in 0..n {
+            if let Stat::Parked(id) = status[t] {
+                let c = &progs[t][done[t].min(progs[t].len() - 1)];
+                held[t] = match id {
+                    "reg.goc.op" => Some(Held { kind: c.kind, shard: shard_of(&c.key), write: last_granted[t] == "reg.goc.write" }),
+                    "reg.visit.cb" => Some(Held { kind: c.kind, shard: park_shard[t].load(Ordering::SeqCst), write: false }),
+                    "reg.retain.cb" => Some(Held { kind: c.kind, shard: park_shard[t].load(Ordering::SeqCst), write: true }),
+                    _ => None,
+                };
+            }
+        }
+        let sweep_conflict = |t: usize, c: &LCallR| -> bool {
+            held.iter().enumerate().any(|(u, h)| {
+                u != t
+                    && match (h, &c.op) {
+                        (Some(_), LOp::Clear) => true,
+                        (Some(h), LOp::Retain { .. }) => h.kind == c.kind,
+                        (Some(h), LOp::Visit { .. }) => h.kind == c.kind && h.write,
+                        _ => false,
+                    }
+            })
+        };
+        if let Some(s) = inflight {
+            // the sweep in flight: a token for it after every step of a holder
+            let c = &progs[s][done[s].min(progs[s].len() - 1)];
+            let finished_call = !matches!(status[s], Stat::Running);
+            if finished_call || !sweep_conflict(s, c) {
+                if !ctl.wait_quiet(None, STUCK) {
+                    problem = Some("a sweep did not finish although no lock it needs is held".into());
+                    break;
+                }
+                inflight = None;
+                continue;
+            }
+        }
+        let multi_holder = status.iter().any(|s| matches!(s, Stat::Parked("reg.visit.cb") | Stat::Parked("reg.retain.cb")));
+        let any_holder = held.iter().any(|h| h.is_some());
+        let mut cands: Vec<(usize, usize)> = vec![]; // (thread, weight)
+        for t in 0..n {
+            let id = match status[t] {
+                Stat::Parked(id) => id,
+                _ => continue,
+            };
+            let c = progs[t].get(done[t]);
+            let conflicts = |write: bool| -> bool {
+                let c = c.unwrap();
+                held.iter().enumerate().any(|(u, h)| u != t && h.map_or(false, |h| h.kind == c.kind && h.shard == shard_of(&c.key) && (write || h.write)))
+            };
+            let w = match id {
+                "reg.goc.op" | "reg.visit.cb" | "reg.retain.cb" => {
+                    if inflight.is_some() {
+                        4
+                    } else {
+                        1
+                    }
+                }
+                _ if inflight.is_some() => 0,
+                "start" => 4,
+                "reg.goc.read" | "reg.get" => {
+                    if multi_holder || conflicts(false) {
+                        0
+                    } else {
+                        4
+                    }
+                }
+                "reg.goc.write" | "reg.delete" => {
+                    if multi_holder || conflicts(true) {
+                        0
+                    } else {
+                        4
+                    }
+                }
+                "reg.sweep" => {
+                    let c = c.unwrap();
+                    let hold = matches!(c.op, LOp::Visit { hold: true } | LOp::Retain { hold: true, .. });
+                    if hold && sweep_conflict(t, c) {
+                        0
+                    } else if any_holder {
+                        8
+                    } else {
+                        1
+                    }
+                }
+                _ => 0,
+            };
+            if w > 0 {
+                cands.push((t, w));
+            }
+        }
+        if cands.is_empty() {
+            problem = Some(format!("no thread can move: {:?}", status));
+            break;
+        }
+        let ws: Vec<usize> = cands.iter().map(|c| c.1).collect();
+        let t = cands[r.weighted(&ws)].0;
+        let id = match status[t] {
+            Stat::Parked(id) => id,
+            _ => unreachable!(),
+        };
+        trace.push((t, id));
+        last_granted[t] = id;
+        if id == "reg.sweep" {
+            let c = &progs[t][done[t]];
+            let contended = sweep_conflict(t, c);
+            sweeps.push(SweepNote { thread: t, call: done[t], created_before: ctr.load(Ordering::SeqCst), contended });
+            if matches!(c.op, LOp::Visit { hold: true } | LOp::Retain { hold: true, .. }) {
+                // the callback parks in the last non-empty shard of the kind (nothing it conflicts with is held)
+                let mut mx = usize::MAX;
+                let mut f = |k: &Key, _: &H| {
+                    let s = shard_of(k);
+                    if mx == usize::MAX || s > mx {
+                        mx = s;
+                    }
+                };
+                match c.kind {
+                    0 => reg.visit_counters(&mut f),
+                    1 => reg.visit_gauges(&mut f),
+                    _ => reg.visit_histograms(&mut f),
+                }
+                park_shard[t].store(mx, Ordering::SeqCst);
+            }
+            if contended {
+                ctl.grant(t);
+                if !ctl.wait_taken(STUCK) {
+                    problem = Some("grant not taken".into());
+                    break 'outer;
+                }
+                inflight = Some(t);
+                // give it time to reach the held shard
+                let t0 = std::time::Instant::now();
+                while t0.elapsed() < GRACE {
+                    if !matches!(ctl.status()[t], Stat::Running) {
+                        break;
+                    }
+                    std::thread::sleep(std::time::Duration::from_micros(200));
+                }
+                continue;
+            }
+        }
+        ctl.grant(t);
+        if !ctl.wait_taken(STUCK) {
+            problem = Some("grant not taken".into());
+            break;
+        }
+        if let Some(s) = inflight {
+            // wait for the holder's step, then the token of the sweep
+            if !ctl.wait_quiet(Some(s), STUCK) {
+                problem = Some("a lock holder did not come back".into());
+                break;
+            }
+            trace.push((s, "reg.sweep"));
+        }
+    }
+    if problem.is_some() {
+        ctl.release_all();
+        let t0 = std::time::Instant::now();
+        for h in handles {
+            while !h.is_finished() && t0.elapsed() < std::time::Duration::from_millis(1500) {
+                std::thread::sleep(std::time::Duration::from_millis(5));
+            }
+            if h.is_finished() {
+                let _ = h.join();
+            }
+        }
+    } else {
+        for (t, h) in handles.into_iter().enumerate() {
+            if let Ok(false) | Err(_) = h.join() {
+                problem = Some(format!("thread {} panicked", t));
+            }
+        }
+    }
+    Ctl::done();
+    let cls_of = |k: &Key| {
+        let c = canon_key(k);
+        classes.iter().find(|(x, _)| *x == c).map(|(_, i)| *i).unwrap_or(usize::MAX)
+    };
+    let mut listing: [Vec<(usize, Got)>; 3] = [vec![], vec![], vec![]];
+    if problem.is_none() {
+        reg.visit_counters(|k, h| listing[0].push((cls_of(k), got_of(h))));
+        reg.visit_gauges(|k, h| listing[1].push((cls_of(k), got_of(h))));
+        reg.visit_histograms(|k, h| listing[2].push((cls_of(k), got_of(h))));
+    }
+    let created = ctr.load(Ordering::SeqCst);
+    let res = results.lock().unwrap().clone();
+    let k = keep.lock().unwrap().clone();
+    LOutcome { pre_results, results: res, listing, created, mask, trace, sweeps, problem, _keep: k }
+}
+
+fn l_one(out: &mut Out, pre: &[BCall], progs: &[Vec<LCallR>], classes: &[(String, usize)], r: &mut Rng) {
+    let o = l_execute(pre, progs, classes, r);
+    let taken: Vec<usize> = o.trace.iter().map(|(t, _)| *t).collect();
+    let op = format!("registry lrun {} {} {} {}", o.mask + 1, prog_tok(pre), list(progs.iter().map(|p| lprog_tok(p))), sched::sched_tok(&taken));
+    let labels: Vec<&str> = o.trace.iter().map(|(_, id)| *id).collect();
+    let res = list(o.results.iter().map(|r| if r.is_empty() { ".".to_string() } else { r.iter().map(lres_tok).collect::<Vec<_>>().join("+") }));
+    let fin: Vec<String> = o
+        .listing
+        .iter()
+        .map(|l| {
+            let mut v: Vec<(usize, usize)> = l.iter().map(|(c, g)| (*c, g.id)).collect();
+            pairs_tok(&mut v)
+        })
+        .collect();
+    let pcs = list(progs.iter().map(|_| "done".to_string()));
+    out.op(&op, &format!("{} | {} | {} | created={} | {}", labels.join("."), res, fin.join(" "), o.created, pcs));
+    if let Some(p) = &o.problem {
+        out.oracle_fail("registry sweep race: a thread got stuck or panicked", p);
+        return;
+    }
+    // oracles that need no model and no assumption on timing
+    for (kd, l) in o.listing.iter().enumerate() {
+        let mut cs: Vec<usize> = l.iter().map(|(c, _)| *c).collect();
+        cs.sort();
+        let nb = cs.len();
+        cs.dedup();
+        if cs.len() != nb {
+            out.oracle_fail("two live entries for one (kind, key) after a sweep race", &format!("kind {}", kd));
+        }
+    }
+    for sw in &o.sweeps {
+        let c = &progs[sw.thread][sw.call];
+        match &c.op {
+            LOp::Clear => {
+                // every storage made before clear() was called sat in some shard when clear took that shard's
+                // lock (or had been deleted): none of them may be registered once clear has returned
+                for (kd, l) in o.listing.iter().enumerate() {
+                    for (cls, g) in l {
+                        if g.id < sw.created_before {
+                            out.oracle_fail(
+                                "clear() returned but a metric that was registered before the call is still registered (clear must remove every entry that was present)",
+                                &format!(
+                                    "kind {} class {} storage id {} (made before the clear; {} storages existed then); clear ran while another thread was inside a callback under a shard lock: {}",
+                                    kd, cls, g.id, sw.created_before, sw.contended
+                                ),
+                            );
+                        }
+                    }
+                }
+                out.count(if sw.contended { "sweep.clear.contended" } else { "sweep.clear.free" });
+            }
+            LOp::Retain { keep, .. } => {
+                for (cls, g) in &o.listing[c.kind as usize] {
+                    if g.id < sw.created_before && !keep.contains(cls) {
+                        out.oracle_fail(
+                            "retain_* returned but an entry its predicate rejects (registered before the call) is still registered",
+                            &format!("kind {} class {} storage id {} contended {}", c.kind, cls, g.id, sw.contended),
+                        );
+                    }
+                }
+                if let LResR::Listing(seen) = &o.results[sw.thread][sw.call] {
+                    let mut cs: Vec<usize> = seen.iter().map(|(c, _)| *c).collect();
+                    cs.sort();
+                    let nb = cs.len();
+                    cs.dedup();
+                    if cs.len() != nb {
+                        out.oracle_fail("retain_* showed its predicate one key twice", &format!("kind {}", c.kind));
+                    }
+                }
+                out.count(if sw.contended { "sweep.retain.contended" } else { "sweep.retain.free" });
+            }
+            LOp::Visit { .. } => {
+                if let LResR::Listing(seen) = &o.results[sw.thread][sw.call] {
+                    let mut cs: Vec<usize> = seen.iter().map(|(c, _)| *c).collect();
+                    cs.sort();
+                    let nb = cs.len();
+                    cs.dedup();
+                    if cs.len() != nb {
+                        out.oracle_fail("visit_* reported one key twice", &format!("kind {}", c.kind));
+                    }
+                    if seen.iter().any(|(_, g)| g.kind != Some(c.kind)) {
+                        out.oracle_fail("visit_* reported a storage of another kind", &format!("kind {}", c.kind));
+                    }
+                }
+                out.count(if sw.contended { "sweep.visit.contended" } else { "sweep.visit.free" });
+            }
+            _ => {}
+        }
+    }
+    if o.sweeps.iter().any(|s| s.contended) {
+        out.nontrivial();
+        out.count("sweep.waited_for_a_held_lock");
+    }
+}
+
+fn l_gen(r: &mut Rng, out: &mut Out, mask: usize) -> (Vec<BCall>, Vec<Vec<LCallR>>, Vec<(String, usize)>) {
+    let ns = r.range(2, 4);
+    let collide = if r.chance(1, 3) { Some(mask) } else { None };
+    let pool = key_pool(r, out, ns, collide);
+    let classes = cls_table(&pool);
+    let kinds: Vec<u8> = if r.chance(1, 2) { vec![r.below(3) as u8] } else { vec![r.below(3) as u8, r.below(3) as u8] };
+    let ncls = classes.len();
+    for (_, k) in &pool {
+        let _ = k.get_hash();
+    }
+    let pick = |r: &mut Rng| {
+        let (cls, key) = r.pick(&pool).clone();
+        (cls, key, *r.pick(&kinds))
+    };
+    let pre: Vec<BCall> = (0..r.range(1, 5))
+        .map(|_| {
+            let (cls, key, kind) = pick(r);
+            BCall { op: OpK::Goc, kind, cls, key }
+        })
+        .collect();
+    let dummy = pool[0].1.clone();
+    let sweep = |r: &mut Rng, hold_ok: bool| -> LCallR {
+        let kind = *r.pick(&kinds);
+        let hold = hold_ok && r.chance(1, 2);
+        let op = match r.weighted(&[5, 3, 2]) {
+            0 if !hold => LOp::Clear,
+            1 => LOp::Retain { keep: (0..ncls).filter(|_| r.chance(1, 3)).collect(), hold },
+            _ => LOp::Visit { hold },
+        };
+        LCallR { op, kind, cls: 0, key: dummy.clone() }
+    };
+    let simple = |r: &mut Rng| -> LCallR {
+        let (cls, key, kind) = pick(r);
+        let op = match r.weighted(&[70, 15, 15]) {
+            0 => LOp::Goc,
+            1 => LOp::Del,
+            _ => LOp::Get,
+        };
+        LCallR { op, kind, cls, key }
+    };
+    let n = r.range(2, 4);
+    let mut progs: Vec<Vec<LCallR>> = vec![];
+    // thread 0: a sweep that does not park (clear mostly); thread 1: something that holds a lock; the rest: anything
+    for t in 0..n {
+        let len = r.range(1, 2);
+        let mut p = vec![];
+        for j in 0..len {
+            let c = match (t, j) {
+                (0, 0) => {
+                    if r.chance(3, 5) {
+                        LCallR { op: LOp::Clear, kind: 0, cls: 0, key: dummy.clone() }
+                    } else {
+                        sweep(r, false)
+                    }
+                }
+                (1, 0) => {
+                    if r.chance(3, 5) {
+                        let mut c = simple(r);
+                        c.op = LOp::Goc;
+                        c
+                    } else {
+                        let mut c = sweep(r, true);
+                        match &mut c.op {
+                            LOp::Visit { hold } | LOp::Retain { hold, .. } => *hold = true,
+                            _ => {}
+                        }
+                        c
+                    }
+                }
+                _ => {
+                    if r.chance(1, 4) {
+                        sweep(r, true)
+                    } else {
+                        simple(r)
+                    }
+                }
+            };
+            p.push(c);
+        }
+        progs.push(p);
+    }
+    out.count(&format!("sweep.threads={}", n));
+    (pre, progs, classes)
+}
+
+fn real_mask() -> usize {
+    let reg: BReg = Registry::new(CountingStorage::<Key> { next: Arc::new(AtomicUsize::new(0)), classify: canon_key });
+    let dbg = format!("{:?}", reg);
+    dbg.rsplit("shard_mask: ")
+        .next()
+        .and_then(|s| s.split(|c: char| !c.is_ascii_digit()).next())
+        .and_then(|s| s.parse::<usize>().ok())
+        .expect("shard_mask")
+}
+
 pub fn run(cfg: &Cfg, out: &mut Out) {
     let root = Rng::new(cfg.seed);
     let (fk, fclasses) = fixed_keys();
@@ -1034,6 +1790,14 @@ pub fn run(cfg: &Cfg, out: &mut Out) {
             out.case("corpus race");
             b_one(out, &[], &progs, &fclasses, &sch);
         }
+        // the same race on the histogram and gauge copies of get_or_create_*
+        for kd in [2u8, 1] {
+            let progs = vec![vec![call(OpK::Goc, kd, 0)], vec![call(OpK::Goc, kd, 1)], vec![call(OpK::Del, kd, 2), call(OpK::Goc, kd, 2)]];
+            for sch in [vec![0, 1, 0, 1, 0, 1, 2, 2, 2, 2], vec![0, 1, 2, 0, 1, 2, 0, 1, 2, 2, 2]] {
+                out.case("corpus race other kinds");
+                b_one(out, &[], &progs, &fclasses, &sch);
+            }
+        }
         // same key in two kinds, and a second class
         let pre = vec![call(OpK::Goc, 0, 0)];
         let progs = vec![vec![call(OpK::Del, 0, 1), call(OpK::Goc, 1, 1)], vec![call(OpK::Goc, 0, 2), call(OpK::Get, 0, 0)], vec![call(OpK::Goc, 0, 3)]];
@@ -1041,8 +1805,30 @@ pub fn run(cfg: &Cfg, out: &mut Out) {
         b_one(out, &pre, &progs, &fclasses, &[1, 0, 1, 0, 2, 1, 0, 2, 1, 0, 2, 1, 0]);
     }
 
-    let n_b = cfg.cases / 3;
-    let n_a = cfg.cases - n_b;
+    // corpus for the sweeps: a recorder inside `op` (read lock after a hit / write lock after creating), an
+    // exporter's visitor and a retain predicate parked under the shard lock while clear() / retain / visit run
+    {
+        let lc = |op: LOp, kind: u8, i: usize| LCallR { op, kind, cls: fk[i].0, key: fk[i].1.clone() };
+        let shapes: Vec<(Vec<BCall>, Vec<Vec<LCallR>>)> = vec![
+            (vec![call(OpK::Goc, 0, 0), call(OpK::Goc, 0, 3)], vec![vec![lc(LOp::Clear, 0, 0)], vec![lc(LOp::Goc, 0, 1)]]),
+            (vec![call(OpK::Goc, 0, 3)], vec![vec![lc(LOp::Clear, 0, 0)], vec![lc(LOp::Goc, 0, 2)]]),
+            (vec![call(OpK::Goc, 1, 0), call(OpK::Goc, 1, 3)], vec![vec![lc(LOp::Clear, 0, 0)], vec![lc(LOp::Visit { hold: true }, 1, 0)]]),
+            (vec![call(OpK::Goc, 2, 0), call(OpK::Goc, 2, 3)], vec![vec![lc(LOp::Clear, 0, 0)], vec![lc(LOp::Retain { keep: vec![0, 1], hold: true }, 2, 0)]]),
+            (vec![call(OpK::Goc, 0, 0), call(OpK::Goc, 0, 3)], vec![vec![lc(LOp::Retain { keep: vec![], hold: false }, 0, 0)], vec![lc(LOp::Goc, 0, 1)], vec![lc(LOp::Goc, 0, 3)]]),
+            (vec![call(OpK::Goc, 2, 3)], vec![vec![lc(LOp::Visit { hold: false }, 2, 0)], vec![lc(LOp::Goc, 2, 0)]]),
+        ];
+        for (i, (pre, progs)) in shapes.iter().enumerate() {
+            for j in 0..3u64 {
+                out.case(&format!("corpus sweep {} {}", i, j));
+                let mut r = Rng::new(0xC06 + 16 * i as u64 + j);
+                l_one(out, pre, progs, &fclasses, &mut r);
+            }
+        }
+    }
+
+    let n_c = cfg.cases / 5;
+    let n_b = cfg.cases / 4;
+    let n_a = cfg.cases - n_b - n_c;
     for i in 0..n_a {
         let mut r = root.fork(i as u64);
         let variant = match r.weighted(&[5, 3, 2, 3]) {
@@ -1069,12 +1855,43 @@ pub fn run(cfg: &Cfg, out: &mut Out) {
         b_one(out, &pre, &progs, &classes, &sch);
     }
 
+    let mask = real_mask();
+    {
+        // the registry's own account of its layout: shards per kind (Debug output) vs shard_mask
+        out.case("shard layout");
+        let reg: BReg = Registry::new(CountingStorage::<Key> { next: Arc::new(AtomicUsize::new(0)), classify: canon_key });
+        let dbg = format!("{:?}", reg);
+        let section = |from: &str, to: &str| -> usize {
+            let a = dbg.find(from).map(|i| i + from.len()).unwrap_or(0);
+            let b = dbg[a..].find(to).map(|i| a + i).unwrap_or(dbg.len());
+            dbg[a..b].matches("RwLock").count()
+        };
+        let counts = [section("counters: [", "gauges: ["), section("gauges: [", "histograms: ["), section("histograms: [", "shard_mask:")];
+        out.count(&format!("layout.shards={}", counts[0]));
+        if counts.iter().any(|c| *c != mask + 1) || !(mask + 1).is_power_of_two() {
+            out.oracle_fail(
+                "shard vectors and shard_mask do not fit (hash & shard_mask must index every shard and nothing else)",
+                &format!("shards per kind {:?}, shard_mask {}", counts, mask),
+            );
+        }
+        out.op(&format!("registry new {}", mask + 1), "ok");
+    }
+    for i in 0..n_c {
+        let mut r = root.fork(2_000_000 + i as u64);
+        out.case(&format!("sweep seed={} i={}", cfg.seed, i));
+        let (pre, progs, classes) = l_gen(&mut r, out, mask);
+        l_one(out, &pre, &progs, &classes, &mut r);
+    }
+
     if cfg.thorough {
         // exhaustive: ALL schedules of small configurations, each replayed on the model
         let configs: Vec<(Vec<BCall>, Vec<Vec<BCall>>)> = vec![
             (vec![], vec![vec![call(OpK::Goc, 0, 0)], vec![call(OpK::Goc, 0, 1)], vec![call(OpK::Del, 0, 2)]]),
             (vec![call(OpK::Goc, 0, 0)], vec![vec![call(OpK::Del, 0, 1), call(OpK::Goc, 0, 2)], vec![call(OpK::Goc, 0, 0), call(OpK::Goc, 1, 0)]]),
             (vec![], vec![vec![call(OpK::Goc, 0, 0)], vec![call(OpK::Goc, 0, 1)], vec![call(OpK::Goc, 0, 2), call(OpK::Get, 0, 3)]]),
+            // the histogram and gauge copies of the read section / write section with re-check
+            (vec![], vec![vec![call(OpK::Goc, 2, 0)], vec![call(OpK::Goc, 2, 1)], vec![call(OpK::Del, 2, 2)]]),
+            (vec![], vec![vec![call(OpK::Goc, 1, 0)], vec![call(OpK::Goc, 1, 1), call(OpK::Goc, 2, 1)]]),
         ];
         for (pre, progs) in configs {
             let name = format!("{} {}", prog_tok(&pre), list(progs.iter().map(|p| prog_tok(p))));
